@@ -8,6 +8,12 @@ ALL = ["C%02d" % i for i in range(1, 21)]
 
 # property -> (design_ref, technique, level text, level_note)
 CHECKS = {
+ "C03": ("7/C03", "TLC model check of Heap.tla + TLC validation of tree-shaped recordings of the real heap",
+         "TLC checks Heap!OutF (nondeterministic among comparator-minimal elements) against the minimality/conservation wording over insert/remove history variables; every sequence of Push/Pop/Delete/Clear/Convert/Merge/Meld to depth 3 (thorough 4) from 12 constructor states under three comparators (<, >, by-key with ties), every slice up to length 4 through FromSlice and up to 5 through Sort, and seeded long runs are executed on the real code with Size/IsEmpty/Peek/GetValues observed after every call and a drain at every node; TLC accepts the recording only if every call is an outcome of the spec.",
+         "bounded scope; layout is not judged (no property pins it) except by the taint trigger of open finding KF-C03-1, which can only switch judging off below a Delete that left a non-heap array"),
+ "C06": ("7/C06", "TLC model check of Stack.tla + TLC validation of tree-shaped recordings of the real stacks",
+         "TLC checks Stack!Out against the LIFO wording exhaustively (3 values, 8 ops) and shows that the open finding's deviation violates it; every Push/Pop sequence to depth 7 (thorough 9) on both implementations plus long seeded empty/refill runs is executed on the real code, Size/Peek/Search observed after every call, drain at every node; LStack.Pop's pinned defect is an exact named deviation so checking continues beneath it.",
+         "bounded scope plus seeded long runs; the deviation KF-C06-1 is consulted only when no ideal outcome matches"),
  "C05": ("7/C05", "TLC model check of Queue.tla + TLC validation of tree-shaped recordings of the real queues",
          "TLC checks Queue!Out against the FIFO/exactly-once/size wording exhaustively (3 values, 7 ops); every Enqueue/Dequeue/Clear sequence to depth 6 (thorough 8) on both implementations plus long seeded drain/refill runs is executed on the real code, with Size/Peek/Search observed after every call and a drain at every node, and TLC accepts the recording only if every call is an outcome of Queue!Out.",
          "bounded scope (depth, 3-value alphabet) plus seeded long runs; observers are the public API; TLC, the Go toolchain and the driver's projection are trusted"),
